@@ -4,7 +4,7 @@
 use crate::CowStr;
 use metrique_writer_core::{
     Entry, EntryConfig, EntryWriter, MetricFlags, Observation, Unit, ValidationError, Value,
-    ValueWriter,
+    ValueWriter, entry::SampleGroupElement,
 };
 use smallvec::SmallVec;
 use std::{
@@ -161,6 +161,10 @@ impl<E: Entry, const N: usize> Entry for WithGlobalDimensions<E, N> {
             global_dimensions: self.global_dimensions(),
             global_dimensions_denylist: self.global_dimensions_denylist(),
         })
+    }
+
+    fn sample_group(&self) -> impl Iterator<Item = SampleGroupElement> {
+        self.entry.sample_group()
     }
 }
 
